@@ -39,7 +39,31 @@ type memBackend struct {
 	fmErr    codes.Code
 	fmAsked  [][]string // every FindMissing argument, as keys
 	maxSize  int
+	// streaming mode (used while a ByteStream.Read runs): Get hands out a CAS buffer that
+	// validates while streaming, backed by a scripted medium: pieces of streamPiece bytes,
+	// cut short by an I/O error of code streamCode after streamFail bytes (-1 = healthy).
+	streamPiece int
+	streamFail  int
+	streamCode  codes.Code
+	streaming   bool
 }
+
+// scriptedMedium is the ChunkReader of the streaming mode.
+type scriptedMedium struct {
+	pieces [][]byte
+	end    error
+}
+
+func (m *scriptedMedium) Read() ([]byte, error) {
+	if len(m.pieces) == 0 {
+		return nil, m.end
+	}
+	p := m.pieces[0]
+	m.pieces = m.pieces[1:]
+	return p, nil
+}
+
+func (m *scriptedMedium) Close() {}
 
 func newMemBackend(ac bool) *memBackend {
 	return &memBackend{ac: ac, blobs: map[string][]byte{}, maxSize: 1 << 20}
@@ -58,6 +82,25 @@ func (b *memBackend) Get(ctx context.Context, d digest.Digest) buffer.Buffer {
 	data, ok := b.blobs[keyOf(d)]
 	if !ok {
 		return buffer.NewBufferFromError(status.Error(codes.NotFound, "Object not found"))
+	}
+	if b.streaming && b.streamPiece > 0 && !b.ac {
+		m := &scriptedMedium{end: io.EOF}
+		src := append([]byte{}, data...)
+		if b.streamFail >= 0 {
+			if b.streamFail < len(src) {
+				src = src[:b.streamFail]
+			}
+			m.end = status.Error(b.streamCode, "injected medium failure")
+		}
+		for len(src) > 0 {
+			n := b.streamPiece
+			if n > len(src) {
+				n = len(src)
+			}
+			m.pieces = append(m.pieces, src[:n])
+			src = src[n:]
+		}
+		return buffer.NewCASBufferFromChunkReader(d, m, buffer.BackendProvided(buffer.Irreparable(d)))
 	}
 	if b.ac {
 		return buffer.NewProtoBufferFromByteSlice(&remoteexecution.ActionResult{}, append([]byte{}, data...), buffer.BackendProvided(buffer.Irreparable(d)))
